@@ -10,6 +10,7 @@ Theorems: lean/Props/C06.lean.  Correspondence:
      shell executes nothing but the configured command.
 The oracle of (b) is independent of the Lean model.
 """
+import logging
 import os
 import shlex
 import shutil
@@ -41,6 +42,10 @@ def unchars(a):
 SEGS = ["..", ".", "", "a", "u", "cal", ".Radicale.props", ".Radicale.cache", ".Radicale.lock", ".Radicale.tmp-x", "item",
         "x~", "~", ".hidden", "a.ics", "é", "a b", "\\", "..\\..", "%2e%2e", "%2F", "..%2f", "a\\b", "decoy", "secret.ics",
         "collection-root", "...", "..a", ".a.", "a" * 300, "‮", "con", "a:b"]
+
+
+SHELLSEGS = ["$(touch pwned)", "`touch pwned`", ";touch pwned;", "a'b", 'a"b', "a|touch pwned", "&touch pwned&", "$HOME", "*", "a>pwned",
+             "a b", "x;y", "'", "''", "a'; touch pwned; '", "a\\'b", "$IFS", "a\tb", "é'", "${PATH}", "a.ics", "-rf", "#x", "(x)", "!", "~root"]
 
 
 def gen_path(rng, lead=None):
@@ -179,10 +184,22 @@ def end_to_end(ctx):
     with open(os.path.join(base, "secret.ics"), "w") as f:
         f.write(scenarios.ev("decoy2", MARKER))
     rec = fsobs.Recorder()
-    hook = "printf '%%s\\n' %(user)s >> hook.out"
+    # the hook program records its argument vector: arguments end with RS (036), invocations with GS (035)
+    script = os.path.join(base, "hookrec")
+    with open(script, "w") as f:
+        f.write("#!/bin/sh\nfor a in \"$@\"; do printf '%s\\036' \"$a\"; done >> hook.out\nprintf '\\035' >> hook.out\n")
+    os.chmod(script, 0o755)
+    tmpl = [script, "%(user)s", "%(path)s", "%(cwd)s", "%(user)s"]
+    hook = " ".join(tmpl)
+    tmpl_tokens = [{"%(user)s": "user", "%(path)s": "path", "%(cwd)s": "cwd"}.get(w) or chars(w) for w in tmpl]
     conf = {"storage": {"hook": hook}, "auth": {"type": "none"}, "rights": permissive_rights(), "web": {"type": "internal"}}
+    tap = HookTap()
+    import radicale.log
+    lg = radicale.log.logger
     try:
         with App(conf, folder=folder) as app:
+            lg.addHandler(tap)
+            lg.setLevel(logging.DEBUG)
             scenarios.build_store(app, 0)
             # reserved names that really exist in a collection folder (editor backup, hidden draft): never served
             caldir = os.path.join(folder, "collection-root", "u", "cal")
@@ -192,7 +209,7 @@ def end_to_end(ctx):
             methods = ["GET", "PUT", "DELETE", "PROPFIND", "MKCOL", "MKCALENDAR", "MOVE", "REPORT", "PROPPATCH", "HEAD", "OPTIONS", "POST"]
             for i in range(n):
                 method = methods[i % len(methods)]
-                channel = rng.choice(["path", "path", "dest", "href", "href-reserved", "token", "script", "login", "reserved", "web"])
+                channel = rng.choice(["path", "path", "dest", "href", "href-reserved", "token", "script", "login", "reserved", "web", "hookpath"])
                 path = "/u/cal/a.ics"
                 env = {}
                 body = None
@@ -200,6 +217,12 @@ def end_to_end(ctx):
                 hostile = gen_path(rng)
                 if channel == "path":
                     path = hostile
+                elif channel == "hookpath":
+                    # the only request whose path reaches the hook (%(path)s): PUT, with shell text in the item or collection name
+                    method = "PUT"
+                    path = rng.choice(["/u/cal/", "/u/", "/u/cal/", "/"]) + "/".join(rng.choice(SHELLSEGS) for _ in range(rng.randint(1, 2)))
+                    if rng.random() < 0.3:
+                        login = rng.choice(SHELLSEGS) + ":pw"
                 elif channel == "reserved":
                     path = rng.choice(["/u/cal/", "/u/", "/u/plain/"]) + rng.choice(RESERVED) + rng.choice(["", "/", "/item/a.ics"])
                 elif channel == "web":
@@ -252,6 +275,7 @@ def end_to_end(ctx):
                                 pf.write(scenarios.ev("planted-" + planted.strip(".~"), MARKER))
                 before = disk_snapshot(folder)
                 hook_before = _hook_lines(folder)
+                tap.commands = []
                 rec.start()
                 try:
                     st, hd, text = app.request(method, path, body, login=login, **env)
@@ -273,7 +297,7 @@ def end_to_end(ctx):
                         inside = rp == folder or rp.startswith(folder + "/")
                         if not inside and not allowed_outside(rp):
                             ctx.violation("the server touched %r (%s) outside the storage folder" % (p, e["op"]), case)
-                        if e["op"] == "execve" and not p.endswith("/sh"):
+                        if e["op"] == "execve" and not p.endswith("/sh") and rp != script:
                             ctx.violation("the hook shell executed %r" % p, case)
                 # oracle 1b: reserved names inside a collection are never opened as items nor looked up in the item cache
                 for e in ent:
@@ -315,21 +339,58 @@ def end_to_end(ctx):
                         ctx.violation("request on a reserved name changed the store", dict(case, changed=sorted(changed)[:5]))
                 if os.path.exists(os.path.join(folder, "pwned")) or os.path.exists("pwned") or os.path.exists(os.path.join(base, "pwned")):
                     ctx.violation("client text was interpreted by the hook shell (file 'pwned' created)", case)
-                # oracle 4: hook saw exactly the user name as one word
-                new_lines = _hook_lines(folder)[len(hook_before):]
+                # oracle 4: the hook program was started with exactly the template's words, placeholders replaced by the login
+                # (or "Anonymous"), the file-system path of the request (PUT only) and the storage folder
+                calls = _hook_lines(folder)[len(hook_before):]
                 user = login.split(":")[0]
-                if new_lines and "\n" not in user and any(l != user + "\n" for l in new_lines) and pathutils.is_safe_path_component(user):
-                    ctx.violation("hook received %r instead of the user name %r" % (new_lines, user), case)
+                root = os.path.join(folder, "collection-root")
+                for argv in calls:
+                    okpath = argv[1:2] == [root] or (method == "PUT" and argv[1:2] == [root + pathutils.sanitize_path(path)]) or \
+                        (channel == "script" and len(argv) > 1 and argv[1].startswith(root))
+                    if len(argv) != 4 or argv[0] != argv[3] or argv[2] != folder or not okpath or \
+                            (pathutils.is_safe_path_component(user) and argv[0] != user):
+                        ctx.violation("the hook program received %r: not the login, the request's file-system path and the storage folder"
+                                      % (argv,), case)
+                # correspondence: the command text and the words /bin/sh made of it against the model's hookCommand / words
+                if ctx.driver and calls and len(tap.commands) == len(calls):
+                    reqs = [{"m": "quote", "op": "hookcmd", "tmpl": tmpl_tokens, "user": chars(argv[0] if argv and argv[0] != "Anonymous" else ""),
+                             "path": chars(argv[1][len(root):] if len(argv) > 1 and argv[1].startswith(root) else ""),
+                             "folder": chars(folder), "root": chars(root)} for argv in calls]
+                    for argv, cmd, a in zip(calls, tap.commands, ctx.driver.ask(reqs)):
+                        mw = None if a.get("words") is None else [unchars(x) for x in a["words"]]
+                        if mw is None or mw[1:] != argv or unchars(a["cmd"]) != cmd:
+                            ctx.disagree("hook command vs model hookCommand/words", dict(case, command=cmd[:300]),
+                                         {"command": cmd[:300], "argv": argv}, {"command": unchars(a["cmd"])[:300], "words": mw})
+                elif calls and len(tap.commands) != len(calls):
+                    ctx.disagree("number of hook runs vs logged commands", case, len(calls), len(tap.commands))
     finally:
+        lg.removeHandler(tap)
+        lg.setLevel(logging.CRITICAL)
         rec.close()
         shutil.rmtree(base, ignore_errors=True)
 
 
 def _hook_lines(folder):
+    """argument vectors of the hook program's invocations so far"""
     try:
-        return open(os.path.join(folder, "hook.out"), newline="").read().splitlines(keepends=True)
+        data = open(os.path.join(folder, "hook.out"), "rb").read().decode("utf-8", "surrogateescape")
     except OSError:
         return []
+    return [inv.split("\x1e")[:-1] for inv in data.split("\x1d")[:-1]]
+
+
+class HookTap(logging.Handler):
+    def __init__(self):
+        super().__init__(logging.DEBUG)
+        self.commands = []
+
+    def emit(self, record):
+        try:
+            msg = record.getMessage()
+        except Exception:
+            return
+        if msg.startswith("Executing storage hook: '") and msg.endswith("'"):
+            self.commands.append(msg[len("Executing storage hook: '"):-1])
 
 
 def run(ctx):
